@@ -57,6 +57,23 @@ func (x *Exec) funcEnv(fr *Frame, st *State) *SpecEnv {
 	if fr.fn.Signature.Recv() != nil && len(fr.params) > 0 {
 		env.vars["self"] = fr.params[0]
 	}
+	// family contracts of the operator methods call the tensor list "inputs" whatever the
+	// implementation names (or does not name) that parameter
+	if _, have := env.vars["inputs"]; !have {
+		cand := -1
+		for k, p := range fr.fn.Params {
+			if k < len(fr.params) && p.Type().String() == "[]gorgonia.org/tensor.Tensor" {
+				if cand >= 0 {
+					cand = -2
+					break
+				}
+				cand = k
+			}
+		}
+		if cand >= 0 {
+			env.vars["inputs"] = fr.params[cand]
+		}
+	}
 	return env
 }
 
